@@ -168,15 +168,65 @@ static void hist_child(const void *job, size_t n) {
 	res_printf("S %llx %llx\nC coupling_checks %ld\n", (unsigned long long) h.a, (unsigned long long) h.b, checks);
 	res_finish();
 }
-void c08_register(void) { harness_register("c08.hist", hist_child); }
+/* ---------------------------------------------------------------- c08.sched (E1): "the derived values never lag", seen by a reader
+ * One report is processed by the receiver while an application thread reads FIRST the segment (the source), THEN the train (the
+ * derived values).  Two separate getter calls are not atomic, so the train may be NEWER than the segment that was read — but never
+ * older: once the segment shows the new address list, presence / position / orientation derived from it must be in place.
+ * variants: train1 enters seg1 (address report), leaves it (free report), leaves it (multiple report), turns round (address
+ * report with the other orientation).  All schedules up to the preemption bound. */
+static int sched_variant; static struct { int seg_cnt, seg_dir; int on, poslen, left; } OBS;
+static void *sched_reader(void *arg) { (void) arg;
+	t_bidib_segment_state_query q = bidib_get_segment_state("seg1"); OBS.seg_cnt = q.known ? (int) q.data.dcc_address_cnt : -1; OBS.seg_dir = q.known && q.data.dcc_address_cnt ? (int) q.data.dcc_addresses[0].type : -1; bidib_free_segment_state_query(q);
+	OBS.on = bidib_get_train_on_track("train1") ? 1 : 0;
+	t_bidib_train_position_query pq = bidib_get_train_position("train1"); OBS.poslen = (int) pq.length; OBS.left = pq.orientation_is_left ? 1 : 0; bidib_free_train_position_query(pq);
+	return NULL; }
+static void sched_child(const void *job, size_t n) {
+	vs_dev_t devs[VS_MAXDEV]; int nd; size_t pl; const uint8_t *p = job_parse(job, n, devs, &nd, &pl);
+	sched_variant = p[0];
+	hx_child_begin(devs, nd, 1, NULL, 0, 0);
+	cm_std(&M); cm_install(&M); SB.on_msg = NULL;
+	if (hx_start_normal(0)) res_infra("normal start failed");
+	hx_quiesce(); bidib_flush(); hx_quiesce(); drain();
+	uint8_t occ0 = 0, enter[3] = {0, T1L, T1H}, back[3] = {0, T1L, T1H | BACK}, mfree[3] = {0, 8, 0x00};
+	if (sched_variant != 0) { sb_send(M.b[0].sbnode, MSG_BM_OCC, &occ0, 1); sb_send(M.b[0].sbnode, MSG_BM_ADDRESS, enter, 3); vs_point(); hx_quiesce(); drain(); }
+	else { sb_send(M.b[0].sbnode, MSG_BM_OCC, &occ0, 1); vs_point(); hx_quiesce(); drain(); }
+	/* the report under test waits in the input */
+	{ uint8_t mm[40], f[90]; int sbn = M.b[0].sbnode; uint8_t seq = SB.n[sbn].seq; SB.n[sbn].seq = seq == 255 ? 1 : (uint8_t) (seq + 1); int ml;
+	  if (sched_variant == 0) ml = rc_build_msg(mm, SB.n[sbn].addr, seq, MSG_BM_ADDRESS, enter, 3);
+	  else if (sched_variant == 1) ml = rc_build_msg(mm, SB.n[sbn].addr, seq, MSG_BM_FREE, &occ0, 1);
+	  else if (sched_variant == 2) ml = rc_build_msg(mm, SB.n[sbn].addr, seq, MSG_BM_MULTIPLE, mfree, 3);
+	  else ml = rc_build_msg(mm, SB.n[sbn].addr, seq, MSG_BM_ADDRESS, back, 3);
+	  env_push_quiet(f, rc_frame(f, mm, (size_t) ml, 1)); }
+	vs_window(1);
+	int t1 = vs_spawn(sched_reader, NULL); vs_join_tid(t1); hx_quiesce();
+	vs_window(0);
+	drain();
+	static const char *VN[4] = {"train1 enters seg1 (address report)", "train1 leaves seg1 (free report)", "train1 leaves seg1 (multiple report)", "train1 turns round in seg1 (address report)"};
+	int lag = 0;
+	if (sched_variant == 0 && OBS.seg_cnt == 1 && (!OBS.on || OBS.poslen != 1)) lag = 1;                  /* segment already lists the train, train not yet there */
+	if ((sched_variant == 1 || sched_variant == 2) && OBS.seg_cnt == 0 && (OBS.on || OBS.poslen != 0)) lag = 1;   /* segment already empty, train still there */
+	if (sched_variant == 3 && OBS.seg_cnt == 1 && OBS.seg_dir == 2 && OBS.left) lag = 1;                   /* segment already reports backwards, train still oriented as before */
+	if (lag) { char cls[200]; snprintf(cls, sizeof cls, "derived-values-lag: a reader saw the segment's new address list and afterwards still the old presence / position / orientation of the train (%s)", sched_variant == 0 ? "enter" : sched_variant == 3 ? "turn" : "leave");
+		res_violation(cls, "%s: segment read first: %d address(es) type %d; then train1 on_track=%d position length=%d orientation_is_left=%d", VN[sched_variant], OBS.seg_cnt, OBS.seg_dir, OBS.on, OBS.poslen, OBS.left); }
+	check_coupling("after the report (quiescent)");
+	hx_emit_ledger_violations("C08");
+	res_printf("O %x %x\n", (unsigned) (OBS.seg_cnt * 100 + OBS.on * 10 + OBS.poslen), (unsigned) (OBS.left + 2 * (OBS.seg_dir + 1)));
+	hx_emit_trace(); res_finish();
+}
+void c08_register(void) { harness_register("c08.sched", sched_child); harness_register("c08.hist", hist_child); }
 int c08_run(const char *tier) {
 	int thorough = !strcmp(tier, "thorough");
 	ev_build();
 	uint8_t param[1] = {0}; const char *d = getenv("VERIF_DEPTH");
+	long sch = 0, sch_out = 0; int sch_ex = 1;
+	for (int v = 0; v < 4; v++) { uint8_t sp[1] = {(uint8_t) v}; char label[64]; snprintf(label, sizeof label, "c08.sched variant %d", v);
+		e1_spec_t es = { .harness = "c08.sched", .param = sp, .nparam = 1, .bound = thorough ? 3 : 2, .label = strdup(label) };
+		e1_explore(&es); for (int k = 0; k < 8; k++) sch += es.schedules_by_cost[k]; sch_out += es.distinct_outcomes; if (!es.exhaustive) sch_ex = 0; }
+	rep_note("c08.sched: receiver processing one report || reader (segment, then train), 4 variants, preemption bound %d: %ld schedules, %ld distinct observations", thorough ? 3 : 2, sch, sch_out);
 	e2_spec_t s = { .harness = "c08.hist", .param = param, .nparam = 1, .nevents = nev, .max_depth = d ? atoi(d) : (thorough ? 6 : 5), .label = "c08.hist", .evname = evname };
 	e2_explore(&s);
-	rep_count("states", s.states); rep_count("transitions", s.transitions); rep_count("executions", s.execs);
-	rep_flag("exhaustive", s.exhaustive);
+	rep_count("states", s.states + sch_out); rep_count("transitions", s.transitions + sch); rep_count("executions", s.execs + sch);
+	rep_flag("exhaustive", s.exhaustive && sch_ex);
 	char sb[200]; size_t o = 0; for (int i = 0; i <= s.depth_completed + 1 && i < 16; i++) o += (size_t) snprintf(sb + o, sizeof sb - o, "%ld ", s.states_by_depth[i]);
 	rep_note("c08.hist: %d events (3 segments on 2 boards, %d address lists), depth completed=%d, new states by depth: %s; coupling evaluated after %ld events", nev, NLIST, s.depth_completed, sb, rep_get("coupling_checks"));
 	return 0;
